@@ -1,12 +1,13 @@
 #!/bin/bash
-# usage: tools/confirm_seed.sh <Cxx> [name]
-# Confirms a seeded change produced in the scratch worktree /tmp/seed_<Cxx> (patch in /tmp/seed_<Cxx>_scratch/patch.diff):
+# usage: tools/confirm_seed.sh <Cxx> [name] [worktree-prefix, default /tmp/seed_]
+# Confirms a seeded change produced in the scratch worktree <prefix><Cxx> (patch in <prefix><Cxx>_scratch/patch.diff):
 #   1. the patch applies to a clean checkout of /repo's HEAD, 2. it builds, 3. the pinned suite's stable tests still pass,
 #   4. the demonstration fails with the change and 5. passes without it.
 # On success copies patch.diff, the demo and meta.json to /verif/seeded/<name>/ and records what was run.
 set -u
 id="$1"; name="${2:-$1}"
-wt="/tmp/seed_${id}"; sc="/tmp/seed_${id}_scratch"
+pre="${3:-/tmp/seed_}"
+wt="${pre}${id}"; sc="${pre}${id}_scratch"
 export GOFLAGS=-mod=mod GOPROXY=off
 cd "$wt" || exit 2
 git checkout -q -- . && git clean -fdq internal cmd
@@ -27,9 +28,10 @@ sys.exit(1 if missing else 0)
 PY
 demo=$(ls "$sc"/demo.sh 2>/dev/null || ls "$sc"/demo* | head -1)
 timeout 600 bash "$demo" "$wt" > "$sc/confirm_with.out" 2>&1; rc_with=$?
-git stash -q
+# without the change (no `git stash`: the stash is shared between worktrees)
+git checkout -q -- . && git clean -fdq internal cmd
 timeout 600 bash "$demo" "$wt" > "$sc/confirm_without.out" 2>&1; rc_without=$?
-git stash pop -q
+git apply "$sc/patch.diff"
 echo "demo with change: exit $rc_with; without: exit $rc_without"
 if [ "$rc_with" = "0" ] || [ "$rc_without" != "0" ]; then echo "FAIL: demo does not discriminate"; exit 1; fi
 mkdir -p "/verif/seeded/$name"
